@@ -193,12 +193,23 @@ func (w *dnsWorld) c08OnRemoved(gone []*dnsEntryObs, before int) {
 }
 
 func (w *dnsWorld) c08FlushLRU() {
-	if len(w.lruBatch) == 0 || w.s.Now() <= w.lruAt {
+	if len(w.lruBatch) == 0 {
+		return
+	}
+	if len(w.curOp) > 0 {
+		w.lruBusy = true
+	}
+	// the pass is over when the cache is back within its limit; a pass that is still
+	// not finished a second later (janitor starved by the scheduler) is not judged
+	if len(w.track.cur) > w.cfg.maxSize {
+		if w.s.Now() > w.lruAt+time.Second {
+			w.lruBatch = nil
+		}
 		return
 	}
 	batch, before := w.lruBatch, w.lruBefore
 	w.lruBatch = nil
-	if before <= w.cfg.maxSize || w.lruBusy || len(w.curOp) > 0 {
+	if before <= w.cfg.maxSize || w.lruBusy {
 		return
 	}
 	for _, r := range batch {
